@@ -1142,8 +1142,9 @@ def masked_iterate() -> Callable[[GenerativeFunction[Y]], GenerativeFunction[Y]]
         def pre(state, flag: Flag):
             return flag, state
 
-        def post(_unused_args, _xformed, masked_retval: Mask[Y]):
-            v = masked_retval.value
+        def post(args, _xformed, masked_retval: Mask[Y]):
+            # a masked-off step leaves the iterated value unchanged (as in `masked_iterate_final`)
+            v = masked_retval.unmask(default=args[0])
             return v, v
 
         # scan_step: (a, bool) -> a
